@@ -685,6 +685,9 @@ class Smt:
                 if idx:
                     g = "(or %s)" % " ".join("(= pos_K %s)" % bv(i, 8) for i in idx)
                     out.append((g, {"pos": "(bvadd pos_K %s)" % bv(1, 8)}, go("ok"), "hook:" + hid))
+                # outside the recorded window (before its first and after its last event) hook
+                # points are not observed
+                out.append(("(or (= pos_K %s) (= pos_K %s))" % (bv(0, 8), bv(len(self.trace), 8)), {}, go("ok"), "hook:%s (outside the window)" % hid))
         elif k == "poll_begin":
             # saturating count of polls begun after the host's request completed
             out.append(("true", {"polls%d" % t: "(ite (and HOSTDONE (bvult polls%d_K %s)) (bvadd polls%d_K %s) polls%d_K)" % (t, bv(15, PLW), t, bv(1, PLW), t)}, go("ok"), k))
